@@ -54,6 +54,11 @@ def gen_scenario(rng, allow_zero_stop=True, small=False, delayed=False):
             if rng.random() < 0.12:
                 a = rng.randrange(0, next_id)
                 acts.append({"k": k, "by": a, "op": "delete", "id": rng.choice([a, a, rng.randrange(0, a + 1)])})
+            elif rng.random() < 0.06:
+                # an agent creates another one while it acts: the newcomer is a live agent of this step
+                # (it is appended to the population, so it handles and acts last in this very step)
+                acts.append({"k": k, "by": rng.randrange(0, next_id), "op": "create", "type": rng.choice(["a", "b"])})
+                next_id += 1
     sends = []
     if (delayed or rng.random() < 0.4) and next_id > 0:
         uid = 0
@@ -75,7 +80,7 @@ def load_script(world, sc, uid_offset=0):
     for p in sc["props"]:
         world.prop_script[(p["k"], p["id"])] = {"x": p["x"], "n": p["n"]}
     for a in sc.get("acts", ()):
-        world.act_ops.setdefault((a["k"], a["by"]), []).append({"op": a["op"], "id": a["id"]})
+        world.act_ops.setdefault((a["k"], a["by"]), []).append({x: y for x, y in a.items() if x not in ("k", "by")})
     for s in sc["sends"]:
         s = dict(s)
         s["uid"] = s["uid"] + uid_offset
@@ -96,7 +101,7 @@ def expected_calls(sc, collect=True, mode="run", sh=None, k0=0, with_hooks=True)
         for p in sc["pop"]:
             hooks.setdefault((p["k"], p["where"]), []).append({x: y for x, y in p.items() if x not in ("k", "where")})
         for a in sc.get("acts", ()):
-            acts.setdefault((a["k"], a["by"]), []).append({"op": a["op"], "id": a["id"]})
+            acts.setdefault((a["k"], a["by"]), []).append({x: y for x, y in a.items() if x not in ("k", "by")})
     spr = round(1 / sc["dt"])
     out = []
     k = k0
@@ -107,13 +112,17 @@ def expected_calls(sc, collect=True, mode="run", sh=None, k0=0, with_hooks=True)
             out.append(("begin", time, r, s))
             for op in hooks.get((k, "begin"), ()):
                 shadow_apply(sh, op)
-            for i in list(sh["live"]):
-                if i not in sh["live"]:
-                    continue        # removed by an earlier agent's act in this very step: only ids <= the remover, so never reached
+            done = set()
+            while True:
+                todo = [i for i in sh["live"] if i not in done]
+                if not todo:
+                    break
+                i = todo[0]
+                done.add(i)
                 out.append(("handle", i, time))
                 out.append(("act", i, time))
                 for op in acts.get((k, i), ()):
-                    shadow_apply(sh, op)
+                    shadow_apply(sh, op)        # deletions only hit agents that have acted already; creations append
             out.append(("end", time, r, s))
             for op in hooks.get((k, "end"), ()):
                 shadow_apply(sh, op)
